@@ -262,6 +262,13 @@ pub fn fraccion_renovable_acs_nrb(ep: &EnergyPerformance) -> Result<f32, EpbdErr
         Some(demanda) => demanda,
     };
 
+    // Demanda anual de ACS nula
+    if demanda_anual_acs.abs() < f32::EPSILON {
+        return Err(EpbdError::WrongInput(
+            "Demanda anual de ACS nula o casi nula".to_string(),
+        ));
+    };
+
     // Consumo de de ACS por vectores
     let dhw_used_by_cr = bal
         .used
@@ -315,13 +322,6 @@ pub fn fraccion_renovable_acs_nrb(ep: &EnergyPerformance) -> Result<f32, EpbdErr
         .unwrap_or(false)
     {
         dhw_used_by_cr_no_aux_or_low_scop.remove(&EAMBIENTE);
-    };
-
-    // Demanda anual de ACS nula
-    if demanda_anual_acs.abs() < f32::EPSILON {
-        return Err(EpbdError::WrongInput(
-            "Demanda anual de ACS nula o casi nula".to_string(),
-        ));
     };
 
     // Comprobaremos las condiciones para poder calcular las aportaciones renovables a la demanda
